@@ -143,7 +143,7 @@ Qed.
 
 (** the copying branch *)
 Lemma read_column_copy ch cr pos rows :
-  chunk_okb ch -> CInv ch cr pos -> (0 < rows)%nat -> (pos + rows <= ch_total ch)%nat -> Z.of_nat rows < 2^31 ->
+  chunk_okb ch -> CInv ch cr pos -> (0 < rows)%nat -> (pos + rows <= ch_total ch)%nat ->
   exists cr2 r,
     read_batch garbage true cr (Z.of_nat rows) (negb (N.eqb (ch_max_def ch) 0)) = Ok (cr2, r) /\
     CInv ch cr2 (pos + rows) /\ br_ret r = Z.of_nat rows /\
@@ -152,7 +152,7 @@ Lemma read_column_copy ch cr pos rows :
                               else map (fun l => N.ltb l (ch_max_def ch)) (firstn (Z.to_nat (br_ret r)) (br_levels r));
                    cd_data := br_vals r; cd_max_def := ch_max_def ch |} = ch_block ch pos rows.
 Proof.
-  intros Hok HI Hr Hle Hsmall. pose proof Hok as [Hc Hl]. unfold CInv in *.
+  intros Hok HI Hr Hle. pose proof Hok as [Hc Hl]. unfold CInv in *.
   destruct (read_batch_spec garbage _ _ _ Hc cr pos (Z.of_nat rows) (negb (N.eqb (ch_max_def ch) 0)) HI ltac:(lia))
     as (cr2 & Er & HI2). cbn zeta in Er, HI2. rewrite Nat2Z.id in Er, HI2.
   unfold ch_total in Hle.
@@ -226,12 +226,12 @@ Qed.
 
 (** one iteration of the main column loop: every column delivers exactly the [rows] rows of the batch *)
 Lemma read_column_spec ch cr pos rows :
-  chunk_okb ch -> CInv ch cr pos -> (0 < rows)%nat -> (pos + rows <= ch_total ch)%nat -> Z.of_nat rows < 2^31 ->
+  chunk_okb ch -> CInv ch cr pos -> (0 < rows)%nat -> (pos + rows <= ch_total ch)%nat ->
   exists cr' d,
     read_column garbage true true m cr (Z.of_nat rows) = Ok (cr', Some d) /\
     CInv ch cr' (pos + rows) /\ observe_col d = ch_block ch pos rows /\ cd_num d = Z.of_nat rows.
 Proof.
-  intros Hok HI Hr Hle Hsmall. pose proof Hok as [Hc Hl].
+  intros Hok HI Hr Hle. pose proof Hok as [Hc Hl].
   assert (Hmd : cs_max_def cr = ch_max_def ch) by (destruct HI as (_ & H & _); exact H).
   unfold read_column. rewrite Hmd.
   (* the peek *)
@@ -251,7 +251,7 @@ Proof.
     rewrite Nat2Z.id.
     destruct (read_column_view ch cr1 pos rows Hok HI1 E0 El ltac:(lia) Hle) as (view & Ev & HI2 & Hobs).
     rewrite Ev. eexists _, _. split; [reflexivity|]. split; [exact HI2|]. split; [exact Hobs|reflexivity].
-  - destruct (read_column_copy ch cr1 pos rows Hok HI1 Hr Hle Hsmall) as (cr2 & r & Er & HI2 & Hret & Hobs).
+  - destruct (read_column_copy ch cr1 pos rows Hok HI1 Hr Hle) as (cr2 & r & Er & HI2 & Hret & Hobs).
     rewrite Er. rewrite Hret. destruct (Z.of_nat rows <? 0) eqn:En; [lia|].
     rewrite Hret in Hobs.
     eexists _, _. split; [reflexivity|]. split; [exact HI2|]. split; [exact Hobs|reflexivity].
@@ -294,18 +294,18 @@ Proof. induction l as [|x l IH]; [reflexivity|]. cbn [map all_some]. rewrite IH.
 
 Lemma read_columns_spec chs : forall rs pos rows,
   Forall chunk_okb chs -> Forall (fun ch => (pos + rows <= ch_total ch)%nat) chs ->
-  RInv chs rs pos -> (0 < rows)%nat -> Z.of_nat rows < 2^31 ->
+  RInv chs rs pos -> (0 < rows)%nat ->
   exists rs' ds,
     read_columns garbage true true m rs (Z.of_nat rows) = Ok (rs', map Some ds) /\
     RInv chs rs' (pos + rows) /\
     map observe_col ds = map (fun ch => ch_block garbage ch pos rows) chs /\
     Forall (fun d => cd_num d = Z.of_nat rows) ds.
 Proof.
-  induction chs as [|ch chs IH]; intros rs pos rows Hok Hle HR Hr Hs; inversion HR as [|? cr ? rs0 Hcr Hrs]; subst.
+  induction chs as [|ch chs IH]; intros rs pos rows Hok Hle HR Hr; inversion HR as [|? cr ? rs0 Hcr Hrs]; subst.
   - exists [], []. repeat split; constructor.
   - inversion Hok as [|? ? Hch Hchs]; subst. inversion Hle as [|? ? Hl Hls]; subst.
-    destruct (read_column_spec garbage m ch cr pos rows Hch Hcr Hr Hl Hs) as (cr' & d & Ec & HI' & Hobs & Hnum).
-    destruct (IH rs0 pos rows Hchs Hls Hrs Hr Hs) as (rs' & ds & Ecs & HR' & Hmap & Hnums).
+    destruct (read_column_spec garbage m ch cr pos rows Hch Hcr Hr Hl) as (cr' & d & Ec & HI' & Hobs & Hnum).
+    destruct (IH rs0 pos rows Hchs Hls Hrs Hr) as (rs' & ds & Ecs & HR' & Hmap & Hnums).
     cbn [read_columns]. rewrite Ec, Ecs.
     exists (cr' :: rs'), (d :: ds). split; [reflexivity|]. split; [constructor; assumption|].
     split; [cbn [map]; rewrite Hobs, Hmap; reflexivity|constructor; assumption].
@@ -353,7 +353,7 @@ Qed.
     position (an empty block for an empty row group) *)
 Lemma produce_spec chs rs pos n g bs :
   chs <> [] -> Forall chunk_okb chs -> Forall (fun ch => ch_total ch = n) chs ->
-  RInv chs rs pos -> (pos <= n)%nat -> 0 < bs < 2^31 ->
+  RInv chs rs pos -> (pos <= n)%nat -> 0 < bs ->
   let c := Nat.min (Z.to_nat bs) (n - pos) in
   exists rs',
     produce garbage true true m bs {| bs_rg := g; bs_readers := rs |} =
@@ -381,7 +381,7 @@ Proof.
     destruct (prefetch_spec (ch0 :: chs0) (cr0 :: rs0) pos Hok HR) as (rs1 & Ep & HR1). rewrite Ep.
     assert (Hle : Forall (fun ch => (pos + c <= ch_total ch)%nat) (ch0 :: chs0)).
     { apply Forall_forall. intros ch Hch. eapply Forall_forall in Hn; [|exact Hch]. cbn beta in Hn. unfold ch_total in *. subst c. lia. }
-    destruct (read_columns_spec (ch0 :: chs0) rs1 pos c Hok Hle HR1 Hc ltac:(subst c; lia)) as (rs2 & ds & Er & HR2 & Hmap & Hnums).
+    destruct (read_columns_spec (ch0 :: chs0) rs1 pos c Hok Hle HR1 Hc) as (rs2 & ds & Er & HR2 & Hmap & Hnums).
     rewrite Er, all_some_map.
     exists rs2. split; [|exact HR2].
     f_equal. f_equal. f_equal. unfold block. f_equal.
@@ -414,7 +414,7 @@ Variable proj : list nat.
 Variable bs : Z.
 Hypothesis Hproj : proj <> [].
 Hypothesis Hf : Forall (rg_ok proj) f.
-Hypothesis Hbs : 0 < bs < 2^31.
+Hypothesis Hbs : 0 < bs.
 
 Notation bsn := (Z.to_nat bs).
 Notation bstate := (@bstate A).
@@ -603,7 +603,7 @@ Qed.
 (** batch_refines: for every batch size, projection and I/O mode the repaired batch reader delivers exactly the
     blocks of the projected columns, row group after row group, and then END_OF_DATA *)
 Theorem batch_refines_proved m (f : @mfile A) proj bs :
-  proj <> [] -> Forall (rg_ok proj) f -> 0 < bs < 2^31 ->
+  proj <> [] -> Forall (rg_ok proj) f -> 0 < bs ->
   batches garbage true true m f proj bs =
   Ok (spec_batches (Z.to_nat bs) proj (table_of garbage f), E_END_OF_DATA).
 Proof.
@@ -748,7 +748,7 @@ Proof.
 Qed.
 
 Theorem batch_aligned_proved m (f : @mfile A) proj bs :
-  proj <> [] -> Forall (rg_ok proj) f -> 0 < bs < 2^31 ->
+  proj <> [] -> Forall (rg_ok proj) f -> 0 < bs ->
   exists bl, batches garbage true true m f proj bs = Ok (bl, E_END_OF_DATA) /\ Forall batch_aligned_prop bl.
 Proof.
   intros Hp Hf Hbs. eexists. split; [apply batch_refines_proved; assumption|].
@@ -756,7 +756,7 @@ Proof.
 Qed.
 
 Theorem batch_concat_proved m (f : @mfile A) proj bs :
-  proj <> [] -> Forall (rg_ok proj) f -> 0 < bs < 2^31 ->
+  proj <> [] -> Forall (rg_ok proj) f -> 0 < bs ->
   exists bl, batches garbage true true m f proj bs = Ok (bl, E_END_OF_DATA) /\
     forall j i, nth_error proj j = Some i -> batches_column bl j = table_column (table_of garbage f) i.
 Proof.
@@ -767,7 +767,7 @@ Qed.
 (** bit i of the null bitmap is set exactly when row i is null - one polarity for every column, batch and mode:
     the bitmaps of projected column j, batch after batch, are [is_null] of the column's rows *)
 Theorem bitmap_iff_level_proved m (f : @mfile A) proj bs :
-  proj <> [] -> Forall (rg_ok proj) f -> 0 < bs < 2^31 ->
+  proj <> [] -> Forall (rg_ok proj) f -> 0 < bs ->
   exists bl, batches garbage true true m f proj bs = Ok (bl, E_END_OF_DATA) /\
     forall j i, nth_error proj j = Some i ->
       concat (map (fun b => match nth_error (b_cols b) j with Some c => bc_bitmap c | None => [] end) bl) =
@@ -783,7 +783,7 @@ Qed.
 
 (** C03: the batch reader's output does not depend on the I/O mode *)
 Theorem io_mode_irrelevant_batch_proved (f : @mfile A) proj bs m1 m2 :
-  proj <> [] -> Forall (rg_ok proj) f -> 0 < bs < 2^31 ->
+  proj <> [] -> Forall (rg_ok proj) f -> 0 < bs ->
   batches garbage true true m1 f proj bs = batches garbage true true m2 f proj bs.
 Proof. intros Hp Hf Hbs. rewrite !batch_refines_proved by assumption. reflexivity. Qed.
 
@@ -813,7 +813,7 @@ Proof. vm_compute. reflexivity. Qed.
     the batches are not those of the specification and differ from stdio mode. *)
 Theorem batch_aligned_pinned_refuted_proved :
   exists (f : @mfile N) proj bs,
-    Forall (rg_ok proj) f /\ proj <> [] /\ 0 < bs < 2^31 /\
+    Forall (rg_ok proj) f /\ proj <> [] /\ 0 < bs /\
     (forall bl c, batches 0%N true false Mmap f proj bs = Ok (bl, c) -> ~ Forall batch_aligned_prop bl) /\
     batches 0%N true false Mmap f proj bs <> batches 0%N true false Fread f proj bs.
 Proof.
